@@ -109,6 +109,7 @@ static int do_exec(Kind kind, const char *file, char *const argv[], char *const 
   k->start_script(c, t->next_spec);
   if (k->hooks) k->hooks->on_exec(t, c, img);
   t->st = Thread::CHILDEND;
+  coro_tsan_ignore(false);
   coro_abandon();
   return -1;
 }
@@ -121,8 +122,10 @@ pid_t simk_fork(void) {
   if (Fault *f = k->fault_for(K_fork)) FAIL(K_fork, 0, 0, 0, f->err, RF_INJECTED);
   if (!t || t->child) { k->fatal = "fork inside a forked child"; errno = ENOSYS; return -1; }
   t->st = Thread::FORKREQ;
+  coro_tsan_sync_next_switch(true);
   coro_yield();
   int r = t->fork_ret;
+  if (r == 0) { coro_tsan_pad(); coro_tsan_ignore(true); }
   k->logrec(K_fork, 0, 0, 0, r, 0);
   return r;
 }
@@ -146,6 +149,7 @@ void simk__exit(int code) {
   k->logrec(K__exit, code, 0, 0, 0, 0);
   k->child_die(c, false, code);
   t->st = Thread::CHILDEND;
+  coro_tsan_ignore(false);
   coro_abandon();
 }
 void simk_exit(int code) { simk__exit(code); }
